@@ -24,7 +24,7 @@ const (
 
 var propRules = map[string]*PropSpec{
 	"C01": {
-		Rules:       []string{"A1.kernel", "A6.kernel", "F1", "F8.bitmap", "F8.run", "F10", "F3.32", "A1.api32", "A2.32", "A3.32", "F11", "F8.scratch", "G1", "F13.32"},
+		Rules:       []string{"A1.kernel", "A6.kernel", "F1", "F8.bitmap", "F8.run", "F10", "F3.32", "A1.api32", "A2.32", "A3.32", "F11", "F8.scratch", "G1", "F13.32", "IDX1", "RES1", "A2.stale"},
 		Explanation: explBase + " C01: kernels never write operands, results are fresh, every kind pairing is dispatched, results are re-typed at the 4096 threshold and run results re-minimised, empty results are elided, x.Op(x) is guarded.",
 		Decided: []string{
 			"kernels and predicates use no package-level scratch memory (concurrent queries on unrelated bitmaps cannot interfere)",
@@ -37,12 +37,14 @@ var propRules = map[string]*PropSpec{
 			"static And/Or/Xor/AndNot and the cardinality/predicate shortcuts never change their operands' contents",
 			"in-place forms write only owned containers and keep flags with moved containers, so the result cannot depend on (or corrupt) copy-on-write sharing",
 			"predicates and cardinality shortcuts never read the copy-on-write flags",
+			"in the two-cursor merge loops (and the cardinality shortcuts built like them) a position variable indexes one operand's table only",
+			"no call of an in-place kernel that can answer with a different container is used as a bare statement (five triaged sites, each on a scratch bitmap container or below the 4096 threshold)",
 		},
 		NotDecided: []string{"kernel arithmetic (merge loops, galloping, run interval algebra, word masks)", "popcount assembly vs portable equality", "key-merge cursor logic", "numeric results of *Cardinality / Intersects"},
 		Technique:  techMix,
 	},
 	"C02": {
-		Rules:       []string{"A2.32", "A3.32", "F3.32", "F8.bitmap", "F8.run", "F5", "F8.scratch", "A4", "F13.32", "U6"},
+		Rules:       []string{"A2.32", "A3.32", "F3.32", "F8.bitmap", "F8.run", "F5", "F8.scratch", "A4", "F13.32", "U6", "RES1", "A2.stale"},
 		Explanation: explBase + " C02: every mutator obtains its container through the copy-before-write gate, stores only owned containers, drops emptied chunks, keeps flags aligned with moved containers, re-types/minimises results and inserts at a position searched in the same table.",
 		Decided: []string{
 			"the container returned by an in-place kernel applied to a slot's container is stored back into the table (CheckedAdd/CheckedRemove/Add/Remove/AddRange ...)",
@@ -57,7 +59,7 @@ var propRules = map[string]*PropSpec{
 		Technique:  techOwn,
 	},
 	"C03": {
-		Rules:       []string{"A1.api32", "A1.kernel", "F1", "F11", "G1", "F3.32", "F3.64", "A1.api64", "U6", "EQ1"},
+		Rules:       []string{"A1.api32", "A1.kernel", "F1", "F11", "G1", "F3.32", "F3.64", "A1.api64", "U6", "EQ1", "IDX1", "F2"},
 		Explanation: explBase + " C03: the clause 'queries never modify the bitmap' is decided for every exported read-only function; kind dispatch of the query paths is exhaustive.",
 		Decided: []string{
 			"queries use no package-level scratch memory",
@@ -80,7 +82,7 @@ var propRules = map[string]*PropSpec{
 		Technique:  "static analysis: CFG reachability after the stop edge (go/ssa), AST type-switch exhaustiveness, ownership summaries",
 	},
 	"C05": {
-		Rules:       []string{"B1", "B2", "B5", "L2", "L5", "A4", "F8.bitmap", "A8", "G1", "F8.scratch", "F2.repair", "R1", "U3", "PT2", "L1", "B7", "B8"},
+		Rules:       []string{"B1", "B2", "B5", "L2", "L5", "A4", "F8.bitmap", "A8", "G1", "F8.scratch", "F2.repair", "R1", "U3", "PT2", "L1", "B7", "B8", "F13.32", "RES1"},
 		Explanation: explBase + " C05: error propagation on every encode/decode path, byte accounting of writers and readers, bounded reads, agreement of size prediction / writer / reader on the offset-header predicate and payload sizes, and flagging of zero-copy payloads.",
 		Decided: []string{
 			"no decoder wraps the caller's stream in a read-ahead buffer (a reader consumes exactly its own bytes)",
@@ -101,7 +103,7 @@ var propRules = map[string]*PropSpec{
 		Technique:  techErr + "; affine size expressions over go/ssa",
 	},
 	"C06": {
-		Rules:       []string{"L1", "L2", "L5", "L6", "B5", "B1", "U3", "PT2", "A8", "R1", "B7", "L8"},
+		Rules:       []string{"L1", "L2", "L5", "L6", "B5", "B1", "U3", "PT2", "A8", "R1", "B7", "L8", "T1", "U1"},
 		Explanation: explBase + " C06: format constants, header predicate, payload sizes and byte order are compared with the published RoaringFormatSpec values transcribed in the model.",
 		Decided: []string{
 			"ToBytes/MarshalBinary results are not backed by pooled memory",
@@ -113,7 +115,7 @@ var propRules = map[string]*PropSpec{
 		Technique:  "static analysis: constant folding (go/constant), truth tables over normalised branch conditions, affine expression comparison",
 	},
 	"C07": {
-		Rules:       []string{"A1.kernel", "A6.kernel", "A2.32", "A3.32", "A2.64", "A3.64", "A1.api32", "A1.api64", "A1.slices", "F9", "F5", "A7", "A9"},
+		Rules:       []string{"A1.kernel", "A6.kernel", "A2.32", "A3.32", "A2.64", "A3.64", "A1.api32", "A1.api64", "A1.slices", "F9", "F5", "A7", "A9", "IDX1", "A2.stale"},
 		Explanation: explBase + " C07 (strongest claim): a container reachable from two tables is flagged in both before either writes; every payload write goes through an owned container; every slot store is an owned store, a flagged move or a certified clone-or-share hand-off; aggregates return independent bitmaps; read-only functions change neither bitmaps nor the caller's slice.",
 		Decided: []string{
 			"write gate: every call that may write a container's payload has an owned receiver (32-bit containers and 64-bit buckets)",
@@ -128,7 +130,7 @@ var propRules = map[string]*PropSpec{
 		Technique:  techOwn,
 	},
 	"C08": {
-		Rules:       []string{"A4", "A5", "A2.32", "A3.32", "A8", "B6", "UNS1"},
+		Rules:       []string{"A4", "A5", "A2.32", "A3.32", "A8", "B6", "UNS1", "A2.stale"},
 		Explanation: explBase + " C08: caller-owned memory enters a bitmap only as container payload under a true copy-on-write flag, never as a slot-table array; every payload write honours the flag; detach deep-copies every flagged slot.",
 		Decided: []string{
 			"no pointer-containing type is overlaid on byte memory: containers cloned by copy-on-write stay visible to the garbage collector",
@@ -138,7 +140,7 @@ var propRules = map[string]*PropSpec{
 		Technique:  "static analysis: taint propagation of caller-owned slices over go/ssa + ownership typestate",
 	},
 	"C09": {
-		Rules:       []string{"F3.32", "F8.bitmap", "F8.run", "F2", "V1", "V2", "A6.kernel", "A2.32", "A3.32", "F8.scratch", "A2.64", "A3.64", "F3.64", "L2", "L5", "F2.repair", "R1", "B5", "F13.32", "A9"},
+		Rules:       []string{"F3.32", "F8.bitmap", "F8.run", "F2", "V1", "V2", "A6.kernel", "A2.32", "A3.32", "F8.scratch", "A2.64", "A3.64", "F3.64", "L2", "L5", "F2.repair", "R1", "B5", "F13.32", "A9", "RES1", "U1", "V3"},
 		Explanation: explBase + " C09: the producer side of each Validate conjunct that has a structural form (no empty chunk stored, array/bitmap threshold, runs minimised, lazy cardinality repaired) and the validator's own conjunct table.",
 		Decided: []string{
 			"roaring64 buckets obey the same ownership and no-empty-bucket rules",
@@ -148,7 +150,7 @@ var propRules = map[string]*PropSpec{
 		Technique:  techMix,
 	},
 	"C10": {
-		Rules:       []string{"B1", "B4", "B5", "T1", "V1", "V2", "U1", "G1", "U3", "L4", "B6", "UNS1", "PT2", "B8", "T2"},
+		Rules:       []string{"B1", "B4", "B5", "T1", "V1", "V2", "U1", "G1", "U3", "L4", "B6", "UNS1", "PT2", "B8", "T2", "V3"},
 		Explanation: explBase + " C10: decoder error discipline, Must* wrappers, bounded reads, size fields bounded before allocation, validator conjuncts (incl. the wrap bound on every run), no 16-bit arithmetic in the frozen reader.",
 		Decided: []string{
 			"FrozenView evaluates all 256 type-code values: each is either built or rejected",
@@ -196,7 +198,7 @@ var propRules = map[string]*PropSpec{
 		Technique:  "static analysis: sibling table extraction from type switches (AST + go/constant), dominance",
 	},
 	"C14": {
-		Rules:       []string{"F8.run", "F8.bitmap", "F3.32", "L7", "F8.scratch", "A2.32", "A3.32", "F2.repair", "F13.32"},
+		Rules:       []string{"F8.run", "F8.bitmap", "F3.32", "L7", "F8.scratch", "A2.32", "A3.32", "F2.repair", "F13.32", "RES1"},
 		Explanation: explBase + " C14: the representation-minimisation clause the bound relies on, and the documented constants of BoundSerializedSizeInBytes.",
 		Decided: []string{
 			"containers are never shared unflagged (a write through a stale flag would corrupt another bitmap's chunk and its size)",
@@ -229,7 +231,7 @@ var propRules = map[string]*PropSpec{
 		Technique:  techMix,
 	},
 	"C17": {
-		Rules:       []string{"A2.64", "A3.64", "F3.64", "F5", "F9", "A1.api64", "A5", "F12", "P6", "P2", "U1", "F10", "EQ1", "R2"},
+		Rules:       []string{"A2.64", "A3.64", "F3.64", "F5", "F9", "A1.api64", "A5", "F12", "P6", "P2", "U1", "F10", "EQ1", "R2", "IDX1", "A2.stale"},
 		Explanation: explBase + " C17: the 64-bit bitmap's bucket table obeys the same ownership discipline (bucket = container), drops emptied buckets, inserts at the right index and its aggregates return fresh bitmaps.",
 		Decided:     []string{"every bucket write goes through an owned bucket (gate / fresh)", "every bucket store is owned / moved with its flag / cloned", "every may-empty bucket operation is followed by an emptiness test", "insertion index searched in the destination table (static Flip)", "FastOr/FastAnd/ParOr of one bitmap return a fresh bitmap", "read-only API never changes its arguments", "in-place Xor tests rb == x2 before writing", "Equals compares receiver with argument on both key and bucket level", "Initialize rewinds every cursor field of the reusable 64-bit iterators"},
 		NotDecided:  []string{"per-bucket range splitting", "Rank/Select accumulation", "iterator arithmetic", "absence of panics in general"},
